@@ -4,6 +4,10 @@ R4.1 recovery off: the Error arm of Parser::lr pushes exactly one error (state j
      input index, no repairs), never calls recover, and returns no value
 R4.2 next_lexeme: stored lexeme below the length, otherwise a faulty zero-length EOF lexeme at the end of the last lexeme
 R4.3 StateTable::action is a pure lookup of the cell (no default-reduction fallback)
+R4.4 work-list discipline of the LR(1) closure (Itemset::close): a pending entry is cleared only when it is the entry just
+     taken, every taken entry is cleared, and an entry is scheduled exactly when Itemset::add reports a change
+R4.5 in the closure's lookahead computation FIRST(Y) of a symbol behind the dot is merged together with a test of
+     nullable(Y) of the same Y (= R17.4's rule applied to lrtable::itemset)
 """
 from mirlib import *
 from lrstep import *
@@ -138,7 +142,79 @@ def r43(facts, res):
     res.bad(R, 'pure-lookup', loc_of(b), 'StateTable::action is no longer a single-path decode of the cell (callees: %s, branches: %d)' % (sorted(set(names)), len(switches)))
 
 
+def r44(facts, res):
+    """Work-list discipline of the LR(1) closure (lrtable Itemset::close): the bit field of pending (production, dot 0) items
+    (a) has a bit cleared only for the entry just TAKEN from it, (b) gets a bit set exactly when Itemset::add reports that it
+    added/widened that item, (c) every taken entry is cleared.  A pending entry that is cancelled without being expanded, or
+    a widened item that is not rescheduled, leaves the state without closure items / lookaheads: the table then lacks
+    actions and the parser reports an error at a lexeme that can continue a sentence."""
+    R = 'R4.4'
+    bs = [x for x in facts.lib_bodies(['lrtable']) if strip_generics(x.path) == 'lrtable::itemset::Itemset::close']
+    if len(bs) != 1:
+        res.lost(R, 'Itemset::close not found')
+        return
+    b = bs[0]
+    loops = b.loops()
+    isb = b.calls_named('iter_set_bits')
+    if len(isb) != 1 or not loops:
+        res.lost(R, 'expected one iter_set_bits call (the take from the pending bit field) in Itemset::close, found %d' % len(isb))
+        return
+    W = b.op_root(isb[0][1]['args'][0])[0]
+    outer = max((h for h in loops if isb[0][0] in loops[h]), key=lambda h: len(loops[h]))
+    w = widening_walker(b, facts)
+    w.widen_headers = set(loops) - {outer}
+    w.widen_assigned = {h: loop_assigned(b, h) for h in w.widen_headers}
+    ps = w.run(outer, stop=lambda x: x not in loops[outer])
+    if w.overflow or not ps:
+        res.lost(R, 'path bound exceeded in Itemset::close')
+        return
+    def on_w(e):
+        t = b.term(e[1])
+        return t['k'] == 'call' and t['args'] and b.op_root(t['args'][0])[0] == W
+    bad = []
+    nclear = nset = ntake = 0
+    for p in ps:
+        took = any(c[0] == 'discr' and has_call(c, 'iter_set_bits') and v == 1 for c, v in p.conds)
+        added = [c for c, v in p.conds if is_call(c, 'add') and 'Itemset' in c[1] and v == 1]
+        clears, sets = [], []
+        for e in p.calls(name='set'):
+            if 'Vob' not in (e[2].get('self_ty') or e[2]['path']) or not on_w(e) or len(e[3]) < 3:
+                continue
+            if e[3][2] == ('const', 0):
+                clears.append(e)
+            elif e[3][2] == ('const', 1):
+                sets.append(e)
+            else:
+                bad.append('line %s: the pending bit field is assigned a computed value' % b.term(e[1]).get('line'))
+        for e in clears:
+            nclear += 1
+            if not has_call(e[3][1], 'iter_set_bits'):
+                bad.append('line %s: a pending entry is cleared on a path where the item being processed did not come from the pending set '
+                           '(index %s): an item queued earlier for expansion is cancelled unexpanded' % (b.term(e[1]).get('line'), fmt_term(e[3][1])[:70]))
+        if took:
+            ntake += 1
+            if not clears and p.end[0] in ('loop', 'stop', 'return'):
+                bad.append('an entry taken from the pending set is not cleared on the path through blocks %s' % p.blocks[:12])
+        for e in sets:
+            nset += 1
+            if not added:
+                bad.append('line %s: an entry is scheduled on a path where Itemset::add did not report a change' % b.term(e[1]).get('line'))
+        if added and not sets:
+            bad.append('Itemset::add reported a new/widened item but it is not scheduled for expansion (path through blocks %s)' % p.blocks[-8:])
+    if bad:
+        res.bad(R, 'closure-worklist', loc_of(b, outer), '; '.join(sorted(set(bad))[:3]), {'function': b.path})
+    else:
+        res.ok(R, 'closure-worklist', loc_of(b, outer), 'over %d paths: %d clears, each of the entry just taken; %d taken entries all cleared; %d schedulings, each under a reported change and none missing'
+               % (len(ps), nclear, ntake, nset))
+    res.floor(R, 'paths through the closure loop', len(ps), 10)
+
+
 def run(facts, res):
     r41(facts, res)
     r42(facts, res)
     r43(facts, res)
+    r44(facts, res)
+    # R4.5 = C17's R17.4 applied to the closure's lookahead computation: FIRST(Y) of a symbol behind the dot is merged into the
+    # context together with a test of nullable(Y) of the same Y
+    import c17
+    c17.r174(facts, res, R='R4.5', crates=('lrtable',), prefixes=('lrtable::itemset::',), floor=1)
